@@ -109,7 +109,11 @@ NAME_POOL = ["a", "b", "c", "e", "f", "g"]
 DIR_POOL = ["d", "k", "m"]
 
 
-def gen_tree_spec(rng, nmin=3, nmax=8, symlinks=True):
+SYMLINK_TARGETS = ["a", "nowhere", "../x", "d"]
+SAFE_SYMLINK_TARGETS = ["nowhere", "../x", "zz/target"]  # never an existing directory, never the link itself
+
+
+def gen_tree_spec(rng, nmin=3, nmax=8, symlinks=True, targets=None):
     """[[path, kind, content-or-target, executable], ...] parents before children."""
     n = rng.randint(nmin, nmax)
     dirs = [""]
@@ -134,7 +138,7 @@ def gen_tree_spec(rng, nmin=3, nmax=8, symlinks=True):
             body = f"{path} v1\n" * rng.randint(1, 3)
             spec.append([path, "file", body, rng.random() < 0.3])
         else:
-            spec.append([path, "symlink", rng.choice(["a", "nowhere", "../x", "d"]), False])
+            spec.append([path, "symlink", rng.choice(targets or SYMLINK_TARGETS), False])
     return spec
 
 
